@@ -142,7 +142,9 @@ def run_case(case):
         if w.g != g:
             raise core.MachineryError("fresh copies of one case project differently")
 
-    ubs = [False, True] if rooted else [False]
+    # update_bipartitions=True is driven on every tree; on trees that are not rooted the judge compares
+    # modulo the documented collapse of the basal bifurcation (Trace_Restrict.BasalOk)
+    ubs = [False, True]
     if "taxa" in parts:
         outs = []
         S = [w0.codes.code(t) for t in keep_of(w0)]
@@ -321,7 +323,6 @@ def model_cases(ctx, states):
         cases.append({"kind": "model", "seed": ctx.seed * 7919 + k, "nleaves": nl, "nested": nested,
                       "keep": sorted(t - 1 for t in st["S"]), "sup": bool(st["sup"]),
                       # j = index of (tree, S); both suppress settings share rooting and namespace layout.
-                      # update_bipartitions=True is only driven on rooted trees, hence most cases are rooted
                       "rooted": (1, 1, 0, 1, 1, -1, 1)[(k // 2) % 7],
                       "holes": [0] if (k // 2) % 5 == 1 else [], "extra": 1 if (k // 2) % 5 == 2 else 0,
                       "parts": parts, "one_combo": True})
@@ -422,8 +423,9 @@ def run(ctx):
                                       "pattern x every non-empty subset of their taxa x suppress on/off (%d inputs); the model runs additionally "
                                       "cover %s length patterns" % (bound, nmodel, "2" if ctx.quick else "4"))
     ctx.assumptions.append("domain of the property as driven: taxa on leaves only, each taxon on at most one leaf, labels given in their exact case and naming the same leaves as the Taxon objects (taxa sharing a label, or labels differing only in case, lie on the same side of the cut; label-addressed variants are also run after a history of label lookups and renamings of taxa, the renamed labels staying pairwise distinct ignoring case), "
-                           "prune_subtree only at nodes whose parent keeps another child, update_bipartitions=True only on rooted trees "
-                           "(on unrooted trees encode_bipartitions collapses the basal bifurcation by design), recursive=True")
+                           "prune_subtree only at nodes whose parent keeps another child, update_bipartitions=True on trees that are not rooted "
+                           "is compared modulo the documented collapse of the unrooted basal bifurcation only (free: order of the seed's children, "
+                           "rooting flag becoming unrooted, the merged length when one of the two is None, no distance from the top), recursive=True")
 
 
 def replay(ctx, rec):
